@@ -126,12 +126,17 @@ def check(env, rep, tier):
             sg = a.aff.single()
             inf = I.syminfo.get(sg[0]) if sg else None
             size = b.aff - a.aff
-            if not (inf and inf[0] == "mul" and sg[1] == 1 and sg[2] == 0 and (inf[1] == size or inf[2] == size)):
+            # start = num x size (a product one of whose factors is a block size, >= 16); the range
+            # length is that block size, or the length of the request payload (equivalent once C09.5
+            # shows the delivered body is cut where the final block ends)
+            if not (inf and inf[0] == "mul" and sg[1] == 1 and sg[2] == 0):
                 good = False
             else:
-                ssym = size.single()
-                lo, hi = s.range(size)
-                if not (ssym and lo >= 16):
+                facs = [f for f in (inf[1], inf[2]) if isinstance(f, Aff) and f.single() and s.range(f)[0] >= 16]
+                pl0 = tr.req_payload0
+                if not facs:
+                    good = False
+                elif not (size in facs or (isinstance(pl0, VecV) and s.entails_eq(size, pl0.len))):
                     good = False
             src_ok = isinstance(repl, OpaqueV) and repl.get("src_place") == tr.req_payload_place
             if not src_ok:
